@@ -361,6 +361,32 @@ fn real_main() -> i32 {
             println!("violation: {:?}\nnontrivial: {} ticks: {} counters: {:?}", out.violation, out.nontrivial, out.ticks, out.counters);
             0
         }
+        "gotostats" => {
+            // how often do terminating goto machines show the rare control-flow events?
+            let mut rng = rng::Rng::new(a.seed);
+            let (mut n, mut term) = (0u64, 0u64);
+            let mut ev = [0u64; 4];
+            let mut evt = [0u64; 4];
+            for _ in 0..a.runs.unwrap_or(20000) {
+                let cmds = gen::goto_machine(&mut rng, false);
+                let p = reflang::preflight(&cmds, b"", 3000, 96, false);
+                n += 1;
+                let t = matches!(p.halt, reflang::Halt::Ended(reflang::End::End) | reflang::Halt::Ended(reflang::End::Exit(_)));
+                if t {
+                    term += 1;
+                }
+                for (k, pr) in [reflang::probe::FWD_JUMP, reflang::probe::JUMP_FROM_FIRST, reflang::probe::RETURN_TO_FIRST, reflang::probe::RETURN_TO_SELF].iter().enumerate() {
+                    if p.m.probes[*pr] > 0 {
+                        ev[k] += 1;
+                        if t {
+                            evt[k] += 1;
+                        }
+                    }
+                }
+            }
+            println!("goto machines {} terminating {} ; fwd/from_first/ret_first/ret_self all {:?} terminating {:?}", n, term, ev, evt);
+            0
+        }
         "model" => {
             // model <program text> [stdin text]: run the reference model on what the real parser returns
             let text = a.rest.first().cloned().unwrap_or_default();
@@ -371,6 +397,9 @@ fn real_main() -> i32 {
             println!("halt: {:?} after {} steps", p.halt, p.safe_steps);
             println!("stdout: {:?}", String::from_utf8_lossy(&p.m.out));
             println!("stderr: {:?}", String::from_utf8_lossy(&p.m.err));
+            let pr: Vec<String> = reflang::probe::NAMES.iter().enumerate().filter(|(i, _)| p.m.probes[*i] > 0).map(|(i, n)| format!("{}={}", n, p.m.probes[i])).collect();
+            println!("probes: {}", pr.join(" "));
+            println!("c03 boundary features: {:#x}", props::c03::boundary_features(&cmds, stdin.as_bytes(), 3000));
             for (i, st) in &p.m.stacks {
                 println!("stack {}: {:?}", i, st.iter().map(|v| v.text()).collect::<Vec<_>>());
             }
